@@ -7,6 +7,7 @@
 (C) control-skeleton snapshots around the Go-side protected call (FramesTrace)."""
 import itertools, json, os, random, time
 import vlib, lsem, gen_prot
+from luagen import render
 
 PROP = "C05"
 
@@ -168,6 +169,18 @@ def run(tier):
         for _ in range(2):
             fams.append(("depth",) + gen_prot.depth_program(target, catcher) + (None,))
             ndepth += 1
+    # protected calls inside coroutines: yields below them (also in tail position) are faults delivered to that pcall,
+    # errors caught below further host boundaries leave the coroutine able to yield (programs of the C06 generator that
+    # contain such an operation)
+    import gen_co
+    crng = random.Random(vlib.seed() * 41 + 5)
+    nco = 0
+    while nco < (400 if thorough else 100):
+        cp, croot = gen_co.script_program(crng)
+        src = render(cp, croot)
+        if "-ypc" in src or "-ebb" in src:
+            fams.append(("coprotect", cp, croot, None))
+            nco += 1
     # recursion without bound under a protected call: "stack overflow" is an ordinary error (LuaSem's glimit)
     for c, sh in itertools.product(["pcall", "xpcall", "co"], ["plain", "capture", "method", "pcall-inside"]):
         for hd in (("plain", "calls") if c == "xpcall" else ("plain",)):
